@@ -39,7 +39,7 @@ def _alarm(signum, frame):
 
 
 def plan(tier):
-    return 8000 if tier == 'quick' else 400000
+    return 16000 if tier == "quick" else 400000
 
 
 def boot_blob(n, sig=True):
